@@ -28,9 +28,9 @@ def gen_cases(tier, seed):
         k = int(rng.integers(1, 7))
         steps = []
         for j in range(k):
-            steps.append({"delta": int(deltas[(i * 7 + j * 13) % len(deltas)]), "op": ["resize", "resize", "add", "remove", "mix", "replace_same"][int(rng.integers(0, 6))],
+            steps.append({"delta": int(deltas[(i * 7 + j * 13) % len(deltas)]), "op": ["resize", "resize", "add", "remove", "mix", "replace_same", "remove_many"][int(rng.integers(0, 7))],
                           "seed": int(rng.integers(0, 2 ** 31))})
-        init = int(rng.integers(0, 5))
+        init = int(rng.integers(0, 6))
         cases.append({"id": "K/%d/%d" % (seed, i), "target": target, "steps": steps, "seed": int(rng.integers(0, 2 ** 31)), "init": init,
                       "big": (i % 41 == 0), "bytes_api": bool(i % 2), "nrg": int(rng.integers(1, 4))})
     return cases
@@ -111,6 +111,21 @@ def run_case(case):
                     upd[k0 if case["bytes_api"] else k0.decode("utf8")] = None
                 else:
                     upd["never-there"] = None
+            if op == "remove_many":
+                # several existing keys removed by ONE update, named in the order they are stored (and once in a shuffled order)
+                others = [k for k in model if k not in (b"pad",)]
+                if len(others) < 2:
+                    for j_ in range(3):     # not enough keys yet: this step adds some, a later one removes them
+                        upd["many%d_%d" % (si, j_)] = "m" * j_
+                else:
+                    k_ = int(r2.integers(2, len(others) + 1))
+                    pick = sorted(r2.choice(len(others), size=k_, replace=False).tolist())
+                    if r2.random() < 0.3:
+                        pick = [int(x) for x in r2.permutation(pick)]
+                    for j_ in pick:
+                        k0 = others[j_]
+                        upd[k0 if case["bytes_api"] else k0.decode("utf8")] = None
+                    counters["multi_key_removals"] = counters.get("multi_key_removals", 0) + 1
             if op == "replace_same":
                 upd["pad"] = "q" * cur_pad
             if not upd:
@@ -209,4 +224,4 @@ def coverage_extra(agg):
 
 
 def required(tier):
-    return {"updates_verified": 300, "deltaclass:-1..-7": 15, "deltaclass:<=-8": 15, "deltaclass:+1..+7": 15, "deltaclass:>=+8": 15, "deltaclass:0": 5}
+    return {"updates_verified": 300, "deltaclass:-1..-7": 15, "deltaclass:<=-8": 15, "deltaclass:+1..+7": 15, "deltaclass:>=+8": 15, "deltaclass:0": 5, "multi_key_removals": 10}
